@@ -32,6 +32,8 @@ BATTERIES_QUICK = [
     [["lq.encrypt.shared"], ["lq.decrypt.shared", "wk.sign.shared"]],
     # validating decodes (curve and subgroup checks) next to calls that can be parked
     [["g1.decode", "g2.decode", "wk.unmarshal"], ["g2.decode", "lq.encrypt", "g1.decode"]],
+    # the scalar samplers (Fr::random is behind both layers' functions) and the G1 sampler
+    [["zp.random", "zp.random"], ["zp.random", "wk.encrypt"]],
 ]
 BATTERIES_THOROUGH = BATTERIES_QUICK + [
     [["lq.encrypt", "wk.encrypt"], ["wk.sign", "lq.decrypt"], ["gt.random", "pairing"]],
